@@ -119,6 +119,9 @@ def _gen_prog(rng, m, generic, stress):
       lp.update(dtype=dt, int=dt in ('i8', 'u8', 'bool'), init=rng.choice([0, 1]), inv=0, final=rng.choice([0, 0, 2]),
                 step=4 if dt == 'bool' and rng.random() < 0.7 else rng.choice([2, 3, 3]) if dt != 'bool' else 2,
                 d=0 if dt == 'bool' else 0.5 if dt in ('f16', 'bf16') else 1, shape=rng.choice(SHAPES))
+    elif rng.random() < 0.08 and not generic:   # a complex64 leaf carried unchanged ((re, im) pairs in the value lists)
+      lp.update(dtype='c64', int=False, init=rng.choice([0, 1]), step=2, inv=0, final=rng.choice([0, 0, 2]),
+                shape=rng.choice(SHAPES))
     elif rng.random() < 0.12 and not generic:   # a float32 leaf carried unchanged, holding extreme magnitudes
       lp.update(dtype='f32', int=False, init=rng.choice([0, 1]), step=2, inv=0, final=rng.choice([0, 0, 2]), extreme=True,
                 shape=rng.choice(SHAPES))
@@ -149,6 +152,8 @@ EXTREME = [0.0, _f32(1.2e-38), _f32(1e-30), _f32(1e-7), _f32(5e-7), _f32(1e-6), 
 def _gen_leafvals(rng, lp, generic, large=False, nonfinite=False):
   n = _size(lp['shape'])
   dt = lp.get('dtype', 'i32' if lp['int'] else 'f32')
+  if dt == 'c64':
+    return [float(rng.choice([-2, -1.5, -0.5, 0, 0.25, 1, 3])) for _ in range(2 * n)]
   if dt == 'bool':
     return [rng.randrange(2) for _ in range(n)]
   if dt in ('i8', 'u8'):
@@ -239,7 +244,8 @@ def _gen_run(rng, k, D, n, profile, generic=False, stress=True, zero_batch=False
           'order': rng.sample(['jit', 'debug', 'pmap'], 3),
           'tol': 1 if generic else 0, 'prog': prog,
           'shared': [_gen_leafvals(rng, lp, generic, large, nonfinite and rng.random() < 0.3) for lp in leaves],
-          'clients': clients, 'state_nest': rng.choice(['tuple', 'tuple', 'dict', 'nested']),
+          'clients': clients, 'layouts': rng.random() < 0.5, 'layout_seed': rng.randrange(7),
+          'state_nest': rng.choice(['tuple', 'tuple', 'dict', 'nested', 'namedtuple', 'list', 'dataclass']),
           'batch_keys': rng.choice(['xy', 'yx', 'mixed'])}
   if x64:
     case['x64'] = True                     # worker started with JAX_ENABLE_X64=1
@@ -247,7 +253,8 @@ def _gen_run(rng, k, D, n, profile, generic=False, stress=True, zero_batch=False
       case['scalar_form'] = 'np'
   if all(lp['final'] == 0 for lp in leaves) and rng.random() < 0.7:
     case['default_final'] = True           # client_final omitted: the documented default `lambda _, s: s`
-    case['state_nest'] = 'tuple'           # (the output then IS the state: keep the leaf order of the DSL)
+    if case['state_nest'] in ('dict', 'nested'):      # (the output then IS the state: keep the leaf order of the DSL)
+      case['state_nest'] = rng.choice(['tuple', 'namedtuple', 'list', 'dataclass'])
   if all(lp['init'] == 0 for lp in leaves) and rng.random() < 0.8:
     case['cin_form'] = rng.choice(['empty', 'none'])      # the program never reads the client input
   if all(lp['init'] == 1 and lp['final'] == 0 for lp in leaves) and rng.random() < 0.8:
@@ -271,7 +278,14 @@ def _gen_script(rng, depth, budget):
     elif r < 0.3:
       ops.append({'op': 'bind'})      # fedjax.for_each_client(...): which backend does it bind?
     elif r < 0.5:
-      ops.append({'op': 'set', 'b': rng.choice(BACKENDS)})
+      b = rng.choice(BACKENDS)
+      ops.append({'op': 'set', 'b': b})
+      if rng.random() < 0.5:       # enter a context with the selection that is ALREADY active, change it inside
+        budget[0] -= 1
+        ops.append({'op': 'with', 'b': b, 'catch': rng.random() < 0.5,
+                    'body': [{'op': 'get'}, {'op': 'set', 'b': rng.choice(BACKENDS)}, {'op': 'get'}] +
+                            ([{'op': 'raise'}] if rng.random() < 0.3 else [])})
+        ops.append({'op': 'get'})
     elif r < 0.55:
       ops.append({'op': 'setbad'})
     elif r < 0.6:
@@ -341,8 +355,8 @@ def _force(rng, case, what):
   else:
     case['shared_form'] = 'none'
   case['default_final'] = rng.random() < 0.7
-  if case['default_final']:
-    case['state_nest'] = 'tuple'
+  if case['default_final'] and case['state_nest'] in ('dict', 'nested'):
+    case['state_nest'] = rng.choice(['tuple', 'namedtuple', 'list', 'dataclass'])
   return case
 
 
@@ -378,6 +392,13 @@ def _gen_cases(tier, rng):
         cases.append(_gen_run(rng, k, D, rng.randrange(1, 2 * D + 2), 'ascending', x64=True))
       cases.append(_force(rng, _gen_run(rng, k, D, rng.randrange(1, 2 * D + 2), 'random'), 'init0'))
       cases.append(_force(rng, _gen_run(rng, k, D, rng.randrange(1, 2 * D + 2), 'random'), 'init1'))
+  # exhaustive grid over _blockify: all count vectors in [0, base)^n for every block size
+  if tier == 'thorough':
+    grid = [(D, n, 4 if n <= 5 else 3) for D in range(1, 9) for n in range(0, 8)]
+  else:
+    grid = [(D, n, 3) for D in range(1, 5) for n in range(0, 6)]
+  for D, n, base in grid:
+    cases.append({'kind': 'grid', 'k': 1, 'D': D, 'n': n, 'base': base})
   ks = sorted({k for k, _ in plan})[:4]
   for i in range(nthreads):
     cases.append(_gen_threads(rng, ks[i % len(ks)]))
@@ -410,6 +431,8 @@ class Worker:
     self.k, self.x64 = k, x64
     env = dict(os.environ)
     env['PYTHONPATH'] = os.environ.get('PYTHONPATH', fw.REPO + ':' + os.path.dirname(HERE))
+    if x64:      # the second interpreter also hashes bytes / str ids differently (determinism across processes)
+      env['PYTHONHASHSEED'] = '4242'
     self.p = subprocess.Popen([sys.executable, '-m', 'harness.c02_worker', str(k)] + (['x64'] if x64 else []), stdin=subprocess.PIPE,
                               stdout=subprocess.PIPE, stderr=subprocess.DEVNULL, text=True, env=env, bufsize=1)
     self.lock = threading.Lock()
@@ -562,7 +585,8 @@ def _ref_client(np, prog, wsr, shared, batches, cin):
 
   def arr(vals, lp):
     vals = [float(v) if isinstance(v, str) else v for v in vals]
-    return np.array(vals, dtype=np.int64 if lp['int'] else np.float64).reshape(lp['shape'])
+    shape = list(lp['shape']) + [2] if lp.get('dtype') == 'c64' else lp['shape']      # (re, im) pairs
+    return np.array(vals, dtype=np.int64 if lp['int'] else np.float64).reshape(shape)
   sh = [arr(shared[k], lp) for k, lp in enumerate(leaves)]
   ci = [arr(cin[k], lp) for k, lp in enumerate(leaves)]
   state = []
@@ -617,7 +641,8 @@ def _ref_client(np, prog, wsr, shared, batches, cin):
   return out, results
 
 
-DTNAME = {'f32': 'float32', 'i32': 'int32', 'f16': 'float16', 'bf16': 'bfloat16', 'i8': 'int8', 'u8': 'uint8', 'bool': 'bool'}
+DTNAME = {'f32': 'float32', 'i32': 'int32', 'f16': 'float16', 'bf16': 'bfloat16', 'i8': 'int8', 'u8': 'uint8', 'bool': 'bool',
+          'c64': 'complex64'}
 WEAK = {'float32': ('float32', 'float64'), 'int32': ('int32', 'int64')}
 
 
@@ -726,6 +751,14 @@ def _oracle_run(case, obs):
         out.append((f'{be}-step-results', f'{be}: a step result of client {y["id"]} differs from the fold'))
       if not ok_m:
         out.append((f'{be}-dtype-shape', f'{be}: an output / step result of client {y["id"]} changed dtype or shape'))
+    exp_tree = o.get('tree_expected')
+    if exp_tree:
+      for y in o['yields']:
+        t = y.get('tree')
+        if t and (t[0] != exp_tree[0] or (t[1] is not None and t[1] != exp_tree[1])):
+          out.append((f'{be}-tree-structure', f'{be}: the pytree structure of an output / step result of client {y["id"]} is '
+                      f'{t}, the client functions return {exp_tree}'))
+          break
     if o['deleted']:
       out.append((f'{be}-input-deleted', f'{be}: caller buffers deleted (donated) by the call: {o["deleted"][:4]}'))
     if o['changed']:
@@ -792,7 +825,49 @@ def _oracle_threads(case, obs):
   return out
 
 
+def _expected_blocks(counts, D):
+  """_blockify by its specification, in exact integer arithmetic: clients in decreasing order of
+  batch count (ties in input order), cut into ceil(n / D) blocks of D, the last one padded with
+  (-n) mod D clients (id None, no batches, zero input); every client of a block padded to the
+  block's largest batch count with zero batches, mask False."""
+  n = len(counts)
+  order = sorted(range(n), key=lambda i: (-counts[i], i))
+  blocks = []
+  for s0 in range(0, n, D):
+    members = order[s0:s0 + D]
+    pad = D - len(members)
+    ids = [i + 1 for i in members] + [0] * pad
+    mask = [1] * len(members) + [0] * pad
+    nb = [counts[i] for i in members] + [0] * pad
+    mx = max(nb)
+    rows = []
+    for j in range(mx):
+      rows.append([[100 * (i + 1) + j + 1 if j < counts[i] else 0 for i in members] + [0] * pad,
+                   [1 if j < counts[i] else 0 for i in members] + [0] * pad])
+    blocks.append([ids, mask, nb, rows, [1000 + i for i in members] + [0] * pad])
+  assert len(blocks) == -(-n // D) and (not blocks or len(blocks[-1][0]) == D)
+  return blocks
+
+
+def _oracle_grid(case, obs):
+  import itertools
+  D, n, base = case['D'], case['n'], case['base']
+  vecs = list(itertools.product(range(base), repeat=n))
+  if len(obs['structs']) != len(vecs):
+    return [('blockify-grid', 'wrong number of grid points')]
+  for counts, st in zip(vecs, obs['structs']):
+    exp = _expected_blocks(list(counts), D)
+    got = [[b[0], b[1], b[2], [[r[0], r[1]] for r in b[3]], b[4]] for b in st] if isinstance(st, list) else st
+    if got != exp:
+      nblk = len(st) if isinstance(st, list) else '?'
+      return [('blockify-grid', f'_blockify(batch counts {list(counts)}, block_size {D}): {nblk} blocks {got} differ from the '
+               f'specification ({len(exp)} blocks, padding {(-n) % D}) {exp}')]
+  return []
+
+
 def oracle(case, obs):
+  if case['kind'] == 'grid':
+    return _oracle_grid(case, obs)
   return _oracle_run(case, obs) if case['kind'] == 'run' else _oracle_threads(case, obs)
 
 
@@ -826,7 +901,7 @@ def _prog(prog):
                                                 r['rinv'], r['rleaf'])
 
 
-DTYPE = {'float32': 0, 'int32': 1, 'float16': 3, 'bfloat16': 4, 'int8': 5, 'uint8': 6, 'bool': 7}
+DTYPE = {'float32': 0, 'int32': 1, 'float16': 3, 'bfloat16': 4, 'int8': 5, 'uint8': 6, 'bool': 7, 'complex64': 8}
 WEAK_CODE = {'float64': 0, 'int64': 1}     # a Python scalar that no jax op touched (scalar_form = 'py' only)
 
 
@@ -869,6 +944,8 @@ def _bop(p):
 
 
 def encode(case, obs):
+  if case['kind'] == 'grid':
+    return f'(CGrid {case["D"]} {case["n"]}%nat {case["base"]}%nat, OGrid {fw.zlist(obs["digests"])})'
   if case['kind'] == 'run':
     if any(obs[be]['err'] for be in ('jit', 'debug', 'pmap')):
       return None      # judged by the oracle; the model has no error behaviour
@@ -903,6 +980,8 @@ def encode(case, obs):
 # --------------------------------------------------------------------------
 
 def nontrivial(case, obs):
+  if case['kind'] == 'grid':
+    return case['n'] > 0
   if case['kind'] == 'run':
     return any(len(c[1]) > 0 for c in case['clients'])
   return len(obs['reads']) > 0
@@ -923,6 +1002,8 @@ def _balanced(ops):
 
 
 def hypotheses_hold(case):
+  if case['kind'] == 'grid':
+    return case['D'] >= 1
   """Do the hypotheses of the theorems hold on this generated case?  (1 <= D; every thread's
   operation sequence is balanced; ids need no hypothesis.)  Cases where they do not are still
   run and judged by the oracle and the correspondence; they are only counted."""
@@ -932,6 +1013,8 @@ def hypotheses_hold(case):
 
 
 def describe(case, obs):
+  if case['kind'] == 'grid':
+    return {'kind': 'grid', 'grid_points': len(obs['digests']), 'grid_D': case['D']}
   if case['kind'] == 'threads':
     return {'kind': 'threads', 'theorem_hypotheses_hold': hypotheses_hold(case), 'threads': case['nthreads'], 'turns': min(len(case['order']) // 5 * 5, 40)}
   n, D = len(case['clients']), case['D']
@@ -945,7 +1028,7 @@ def describe(case, obs):
           'second_call': case.get('second', 'repeat'),
           'empty_inputs': case.get('cin_form', 'tuple') + '/' + case.get('shared_form', 'dict'),
           'disable_jit_leaked_by_debug': bool(obs.get('debug', {}).get('disable_jit_leaked')),
-          'state_nest': case.get('state_nest', 'tuple'), 'batch_keys': case.get('batch_keys', 'xy'), 'x64': bool(case.get('x64')),
+          'state_nest': case.get('state_nest', 'tuple'), 'memory_layouts': bool(case.get('layouts')), 'batch_keys': case.get('batch_keys', 'xy'), 'x64': bool(case.get('x64')),
           'nonfinite_real_inputs': any(isinstance(v, str) for c in case['clients'] for l in c[2] for v in l),
           'extreme_magnitudes': any(lp.get('extreme') for lp in case['prog']['leaves']),
           'leaf_dtypes': '+'.join(sorted({lp.get('dtype', 'f32') for lp in case['prog']['leaves']})),
@@ -957,6 +1040,12 @@ def hang_key(case):
 
 
 def shrink(case):
+  if case['kind'] == 'grid':
+    if case['n'] > 0:
+      yield {**case, 'n': case['n'] - 1}
+    if case['base'] > 2:
+      yield {**case, 'base': case['base'] - 1}
+    return
   if case['kind'] == 'threads':
     for t in range(case['nthreads']):
       s = case['scripts'][t]
